@@ -119,6 +119,25 @@ pub fn start_ctx(tag: &str) -> Result<Ctx, String> {
     Ok(Ctx { exp, obs })
 }
 
+/// A scrape whose client sends a complete request and then resets its connection while the exporter
+/// is still waiting for the daemon: the exporter's write fails. What it leaves behind must not leak
+/// into the next (fully judged) scrape.
+pub fn aborted_scrape(rep: &mut Report, ctx: &mut Ctx, st: &ObservableState) {
+    use std::io::Write;
+    let Ok(bytes) = serde_json::to_vec(st) else { return };
+    ctx.obs.set(ObsMode::DelayedValid(bytes, 120));
+    if let Ok(mut s) = std::net::TcpStream::connect_timeout(&format!("127.0.0.1:{}", ctx.exp.port).parse().unwrap(), Duration::from_millis(500)) {
+        let _ = s.write_all(b"GET /metrics HTTP/1.1\r\nHost: localhost\r\n\r\n");
+        std::thread::sleep(Duration::from_millis(40));
+        let sock = socket2::Socket::from(s);
+        let _ = sock.set_linger(Some(Duration::from_secs(0)));
+        drop(sock);
+        rep.ev("aborted_scrape");
+    }
+    // let the exporter get its answer from the (slow) daemon and fail to deliver it
+    std::thread::sleep(Duration::from_millis(200));
+}
+
 pub fn check_state(rep: &mut Report, ctx: &mut Ctx, st: &ObservableState, label: &str) {
     let replay = json!({"label": label, "state": serde_json::to_value(st).unwrap_or(json!(null))});
     // (2) the JSON hop
@@ -235,7 +254,7 @@ fn state_of(node: &Node, contribution: Option<FilterEstimate>, prog: ProgramData
 
 pub fn run(rep: &mut Report, tier: &str, seed: u64, shard: (u32, u32), _replay: Option<&str>) {
     rep.rule = "instance states taken from live simulated instances through the public getters the daemon uses (grandmaster, slave with servo estimates, 1-8-port boundary clocks, P2P ports with measured link delay, Faulty/Passive/Listening ports, path lists 0..128, every time-properties combination) plus synthetic extremes (offsets/delays up to +-10 s and beyond 64 bits of 2^-32 ns, negative values), served to the real exporter over a harness observation socket; the HTTP response is parsed independently and every metric compared; distinct = distinct JSON states".into();
-    rep.require(&["json_roundtrip", "http_response", "exposition_parsed", "metric_compared"]);
+    rep.require(&["aborted_scrape", "json_roundtrip", "http_response", "exposition_parsed", "metric_compared"]);
     let mut ctx = match start_ctx(&format!("c19-{}", shard.0)) {
         Ok(c) => c,
         Err(e) => {
@@ -357,6 +376,10 @@ pub fn run(rep: &mut Report, tier: &str, seed: u64, shard: (u32, u32), _replay: 
         }
         if i <= 2 {
             rep.sample(json!({"scenario": scenario, "ports": n_ports, "json_bytes": serde_json::to_vec(&st).map(|b| b.len()).unwrap_or(0)}));
+        }
+        if i % 6 == 1 {
+            // the previous scrape was aborted by its client: this one must be unaffected
+            aborted_scrape(rep, &mut ctx, &st);
         }
         check_state(rep, &mut ctx, &st, &format!("scenario {scenario}, {n_ports} ports"));
         rep.evaluations += 1;
